@@ -3,24 +3,33 @@ from propcfg.common import COMMON_ASSUME
 CFG = {
     "bin": "c20",
     "extra_bins": ["tbp"],
-    "technique": "Lean 4 proof (writers parameterised by the hash-iteration order, statements over every permutation; "
+    "technique": "Lean 4 proof (writers parameterised by the hash-iteration order, statements over every permutation; exec.d replacement also on a "
+                 "storage-aware model that keeps hard-link / symlink identity of a restored exec.d; "
                  "decide-able obligations on the regenerated iteration sites / serialised field types) + paired fresh-process runs compared byte for byte",
     "level_text": "Theorems (all inputs, every permutation, no bound): LayerEnv::write_to_layer_dir, replace_layer_exec_d_programs and the "
                   "trait API's write_layer leave the same layer (same entries at every level of the directory tree, same <layer>.toml document, "
                   "same SBOM files) and return the same result whatever order the process map / exec.d program map is iterated in; "
+                  "a restored layer's exec.d written again: whatever the directory held before (any files, links, directories: execd_previous_content_irrelevant) and, on the model that "
+                  "keeps storage identity (XFs: hard links of one inode inside/outside exec.d, symlinks to siblings or elsewhere, fs::copy writing through them), for any two prior states and "
+                  "any two iteration orders the call completes, leaves the same directory, every wanted name a regular file of its own (link count 1) with its own source's bytes, and writes no "
+                  "pre-existing storage (execd_rewrite_ignores_restored_entries; in_place_overwrite_depends_on_order shows the wipe is what carries it); "
                   "every hash-iteration and read_dir site of the phase and layer code is one the model covers (Gen.HashSites, regenerated), "
                   "no serialised phase document has a hash-backed field, toml::Table is a BTreeMap, no clock/random source is mentioned. "
-                  "Tied to the code by Gen.HashSites and by running every scenario in 4 fresh processes (3 pairs) and comparing all bytes.",
+                  "Tied to the code by Gen.HashSites and by running every scenario in 4 fresh processes (3 pairs; 6 processes for the restored-exec.d scenarios) and comparing all bytes, "
+                  "link targets, the bytes behind every symlink and the link count / inode sharing of every file; for the restored-exec.d scenarios the model also predicts the exec.d listing.",
     "level_note": "PARTIAL. Proved on the model for the success paths; the error path of replace_layer_exec_d_programs (missing source file) "
                   "leaves an order-dependent subset in exec.d (Props/C20 execd_error_path_counterexample: FullStatement is false there). "
                   "Byte-level determinism of the toml serializer and of std (fs::write, fs::copy, create_dir_all modes) is sampled by the paired runs, not proved. "
+                  "The storage-aware exec.d model (XFs) covers exec.d being a directory or absent and every source present; that remove_dir_all unlinks names without writing their storage and that "
+                  "fs::copy creates a fresh inode for an absent name is std/kernel behaviour assumed by the model and sampled by the kind-execd scenarios (their listing carries link counts); "
+                  "exec.d itself being a symlink is only sampled (layers-execdlink), the Dir-level model (C01's) does not follow it. "
                   "The hash-site scan approximates types from annotations read with syn (field/param/local/variant types, return types, wrappers to a fixpoint); "
                   "an iteration hidden behind a generic or a macro-generated type is only caught by the paired runs. "
                   "Two error paths leave a HashMap-order-dependent subset behind (known findings C20-execd-missing-source-partial, C20-env-process-clash-partial; witnesses in corpus/C20; the generator stays free of both classes). "
                   "Outside the property's file list: libcnb-data ExecDProgramOutput(HashMap) derives Serialize, so the TOML an exec.d program writes to fd 3 has hash-ordered keys "
                   "(recorded in Gen.HashSites.serFields; no_hash_backed_serialised_field lists it as the only hash-backed serialised type, not a phase document). "
-                  "Trusted: Lean kernel; Spec/Determinism (canonical form = sorted at every level, first occurrence wins); translator part hashsites.rs; harness c20.rs.",
-    "shrink": [(2, ";")],
+                  "Trusted: Lean kernel; Spec/Determinism (canonical form = sorted at every level, first occurrence wins; execdVerdict); translator part hashsites.rs; harness c20.rs.",
+    "shrink": [(2, ";"), (1, ",")],
     "search_tier": "quick",
     "search_rounds": 2,
     "rule": "fixed part: toml::Table order probe; every C05 build-result subset through tbp (detect x 4 behaviours, build x 18 behaviours x 2 pre-existing states); "
@@ -28,19 +37,31 @@ CFG = {
             "SBOMs in all formats, restore, second request with every restored-layer action; the same through the trait API's handle_layer with each "
             "existing-layer strategy). Class dupenv (24 quick / 160 thorough): a hand-prepared layer whose env, env.build, env.launch or env.launch/<process> directory holds both "
             "VAR (suffix-less = override) and VAR.override with different contents for 2-4 variables in 1-4 directories, optionally restored, then read and written "
-            "again through LayerRef::read_env + write_env, trait-API Keep, or MetadataMigration::ReplaceMetadata followed by Keep (typed metadata). Then seeded sampling: layer histories (<=14 ops quick / <=30 thorough over 3 layer names, struct and trait ops mixed), "
+            "again through LayerRef::read_env + write_env, trait-API Keep, or MetadataMigration::ReplaceMetadata followed by Keep (typed metadata). "
+            "Kind execd (84 fixed + 48 sampled quick / 160 per search round / 600 thorough): a cached layer whose exec.d is prepared by hand, restored, and written again with 2-4 wanted programs "
+            "from distinct sources through the struct API (cached_layer -> KeepLayer -> LayerRef::write_exec_d_programs) or the trait API (ExistingLayerStrategy::Update returning the programs); "
+            "fixed part = 14 patterns x n in 2..4 x both APIs: no exec.d, plain files + stale file + sub-directory, a wanted name symlinked to a wanted sibling (both directions), two / all wanted names "
+            "hard links of one inode, two wanted names symlinked to one file elsewhere in the layer / outside the layers directory / to one missing sibling, symlink onto a hard-linked pair, stale names "
+            "aliasing wanted ones, wanted names hard-linked with a file outside exec.d, partially pre-existing, a self-referencing symlink; sampled part = each of 2-4 wanted and 0-2 stale names (out of 6) "
+            "absent / plain / symlink (sibling, ../bin/tool, outside, dangling) / hard link of an earlier file. 6 fresh processes (18 on replay); the observation is differ:<line> or "
+            "equal|<result>|<exec.d listing: name, kind, bytes, link count, bytes behind a symlink>, the model (Det.replaceExecdX on the storage-aware state built from the same entries) predicts the listing. "
+            "6 layers-kind histories (execdlink) make exec.d itself a symlink (to a directory of the layer, outside, dangling) with ops K (symlink) / H (hard link) / Q (exec.d listing). Then seeded sampling: layer histories (<=14 ops quick / <=30 thorough over 3 layer names, struct and trait ops mixed), "
             "data-driven buildpack runs as detect (provides/requires/or with multi-key metadata) and build (layers via both APIs, launch.toml with several "
             "processes/labels/slices, store with nested multi-key metadata, build and launch SBOMs, pre-existing store). Each scenario = 4 fresh processes "
             "(10 when a single case is replayed: corpus, shrinking, --replay; own temp root each; std's hash seed differs per process), runs 2-4 compared with run 1 line by line over exit status, step results and a raw "
-            "snapshot (path, mode, hex of all bytes) of the layers directory and the plan file; 1 in 16 scenarios waits 1.1 s before the last run "
+            "snapshot (path, mode, hex of all bytes; link target and the bytes behind every symlink; link count and first path of the same inode for files with several names) "
+            "of the layers directory and the plan file; 1 in 16 scenarios waits 1.1 s before the last run "
             "(second-resolution timestamps). non-trivial = some single write involves >=3 hash-ordered keys (process types or exec.d programs) "
-            "or the run writes a TOML document with >=2 table keys / array entries; distinct = distinct input line",
-    "trusted_base": ["Spec/Determinism.lean: what 'the same directory' means (canon; S1-S4 in Props/C20 state its meaning)",
+            "or the run writes a TOML document with >=2 table keys / array entries, or (kind execd) >=2 wanted names shared storage beforehand or >=3 names are wanted; distinct = distinct input line",
+    "trusted_base": ["Spec/Determinism.lean: what 'the same directory' means (canon; S1-S4 in Props/C20 state its meaning); execdVerdict: runs equal and, on success, exec.d = exactly the wanted names, each an independent regular file with its own source's bytes",
+                     "Model/Determinism.lean XFs / XFs.copyTo: fs::copy onto an existing name writes the storage the name designates (through symlinks, into a shared inode); remove_dir_all only unlinks; a name created by the call has storage of its own",
+                     "Driver/C20.lean: replay of the hand-prepared entries (f/l/h) into XFs and the listing format; harness c20.rs execd_history / execd_listing / raw_snapshot (link-ness is part of the snapshot)",
                      "Gen.HashSites regenerated from /repo by translator/hashsites.rs (syn): iteration / read_dir / entropy sites, serialised field types, toml features"],
     "assumptions": COMMON_ASSUME + [
         "std's HashMap iteration order is a permutation of the entries (each key once); keys of a map are distinct",
         "the toml serializer and std::fs are deterministic functions of their arguments (sampled: 4 processes per scenario)",
         "read_dir order is the same in every process for identical inputs on one file system (ext4 here; sampled by the dupenv class: which of two files designating one variable wins)",
         "a hash-order leak over >=3 keys shows in at least one of 3 pairs with probability >= 0.99",
+        "a leak between two aliased exec.d names shows in one pair with probability 1/2: 5 pairs per scenario (>= 0.96), 17 on replay; over the >= 50 aliasing scenarios of a quick run a miss is negligible; a run that happens to be equal is still judged on its content",
     ],
 }
